@@ -228,17 +228,33 @@ public:
         auto rawData = inputFile.readAll();
         auto compressed = qCompress(rawData, 5);
 
+        // The original is given up only for a complete compressed copy: everything was read and
+        // every byte reached the ".gz". Each write is checked (a later successful write clears
+        // the device's error state) and so is the flush of what the writes left in the buffer
+        bool complete = inputFile.error() == QFileDevice::NoError
+                && rawData.size() == inputFile.size();
+
         if (compressed.size() > 10) {
-            outputFile.write(compressed.constData() + 6, compressed.size() - 6 - 4);
+            const qint64 size = compressed.size() - 6 - 4;
+            complete = outputFile.write(compressed.constData() + 6, size) == size && complete;
+        } else {
+            complete = false; // qCompress failed
         }
 
         auto le_crc = qToLittleEndian(fileCRC);
         auto le_size = qToLittleEndian(fileSize);
-        outputFile.write(reinterpret_cast<const char*>(&le_crc), 4);
-        outputFile.write(reinterpret_cast<const char*>(&le_size), 4);
+        complete = outputFile.write(reinterpret_cast<const char*>(&le_crc), 4) == 4 && complete;
+        complete = outputFile.write(reinterpret_cast<const char*>(&le_size), 4) == 4 && complete;
+        complete = outputFile.flush() && complete;
 
         inputFile.close();
         outputFile.close();
+
+        if (!complete) {
+            QFile::remove(compressedPath);
+            return;
+        }
+
         QFile::remove(filePath);
     }
 
